@@ -137,6 +137,8 @@ impl Sandbox {
         // A .gitignore ABOVE the repository root never applies to the repository (git does not read it):
         // every sandbox carries one that would hide everything if it were honoured.
         let _ = std::fs::write(base.join(".gitignore"), "*\n");
+        // ... and sits inside another working copy (a Mercurial one): the NEAREST repository marker is the root
+        let _ = std::fs::create_dir_all(base.join(".hg"));
         Sandbox { base, root, home, keep: false }
     }
 
